@@ -347,7 +347,6 @@ func c17Run(c *Ctx) {
 		c.Do("savefault", c17GenFault(r))
 	}
 	c17EntryCases(c)
-	c17RunRawText(c) // c17_rawtext.go
 	for _, y := range c17MalformedFixed {
 		c.Do("malformed", c17Malformed{Yaml: y})
 	}
@@ -359,6 +358,7 @@ func c17Run(c *Ctx) {
 		c.Tick()
 		c.Do("b64", c17GenB64(r))
 	}
+	c17RunRawText(c) // c17_rawtext.go (last: the cases above stay what they were for a given seed)
 }
 
 func c17GenEmb(r *rand.Rand) c17Emb {
